@@ -89,6 +89,12 @@ CHECKS = [
         "text": "For every type of the grammar, both schema functions and the four target versions: the converted schema validated by the target dialect's own validator (Draft201909 / Draft7; OpenAPI 3.0 through its documented mapping; $refs against definitions_schema of the same version) accepts exactly the data (<=1 deviation enumeration) the 2020-12 schema accepts; a recursive walk finds no keyword outside the target vocabulary and only the target reference prefix, at any depth and in the definitions.",
         "note": "Known findings: unevaluatedProperties in draft-07 (flattened objects), {'type': 'null'} in OpenAPI 3.0 for a None-typed position.",
     },
+    {
+        "id": "C16", "engine": "E1", "design_ref": "DESIGN.md §5 C16",
+        "technique": "exhaustive enumeration of every class with <=n elements and every well-founded ordering specification, four views against a reference ordering function",
+        "text": "Every class with up to 4 (quick) / 5 (thorough) elements (fields then 0-2 serialized methods) and every per-element ordering specification from {none, order(-1), order(1), order(999), after=x, before=x for every other x} with acyclic anchors, plus class-level order([...]) permutations, order({...}) overrides and inheritance, is compiled from generated source; the key order of serialize(), of the properties of both schemas and of the GraphQL object type must be the reference permutation (projected on the elements of the view).",
+        "note": "Cyclic specifications are excluded and counted. The reference function is written from the property statement.",
+    },
 ]
 _PENDING = "check not built yet in this round (planned, see DESIGN.md §5); not claimed until it runs green"
-NOT_APPLICABLE = [{"property_id": f"C{i:02d}", "reason": _PENDING} for i in range(4, 20) if i not in (4, 5, 6, 7, 8, 9, 13, 14, 15, 17, 18)]
+NOT_APPLICABLE = [{"property_id": f"C{i:02d}", "reason": _PENDING} for i in range(4, 20) if i not in (4, 5, 6, 7, 8, 9, 13, 14, 15, 16, 17, 18)]
